@@ -80,12 +80,37 @@ class _T(ast.NodeTransformer):
         n.iter = self._w(n.iter)
         return n
 
+    def visit_Starred(self, n):
+        # [*E], (a, *E), f(*E): unpacking iterates E
+        self.generic_visit(n)
+        if isinstance(n.ctx, ast.Load):
+            n.value = self._w(n.value)
+        return n
+
+    def visit_Assign(self, n):
+        # a, b = E  iterates E
+        self.generic_visit(n)
+        if any(isinstance(t, (ast.Tuple, ast.List)) for t in n.targets) and not isinstance(n.value, (ast.Tuple, ast.List)):
+            n.value = self._w(n.value)
+        return n
+
+    ITER_FUNCS = ("iter", "list", "tuple", "enumerate", "deque", "next", "zip", "map", "filter", "reversed", "chain", "dict", "OrderedDict")
+    ITER_METHODS = ("extend", "update", "fromkeys", "join", "from_iterable", "extendleft")
+
     def visit_Call(self, n):
         self.generic_visit(n)
-        if isinstance(n.func, ast.Name) and n.func.id in ("iter", "list", "tuple", "enumerate", "deque", "next") and n.args:
-            if not (isinstance(n.args[0], ast.Call) and isinstance(n.args[0].func, ast.Name) and n.args[0].func.id == "nd_iter_"):
-                n.args[0] = self._w(n.args[0])
-        if isinstance(n.func, ast.Attribute) and n.func.attr in ("extend", "update", "fromkeys") and n.args:
+
+        def wrapped(a):
+            return isinstance(a, ast.Call) and isinstance(a.func, ast.Name) and a.func.id == "nd_iter_"
+
+        if isinstance(n.func, ast.Name) and n.func.id in self.ITER_FUNCS and n.args:
+            first = 1 if n.func.id in ("map", "filter") else 0
+            for i in range(first, len(n.args)):
+                if not wrapped(n.args[i]) and not isinstance(n.args[i], ast.Starred):
+                    n.args[i] = self._w(n.args[i])
+                if n.func.id not in ("zip", "map", "chain"):
+                    break
+        if isinstance(n.func, ast.Attribute) and n.func.attr in self.ITER_METHODS and n.args and not wrapped(n.args[0]):
             n.args[0] = self._w(n.args[0])
         if isinstance(n.func, ast.Attribute) and n.func.attr == "pop":
             return ast.copy_location(ast.Call(ast.Name("nd_pop_", ast.Load()), [n.func.value] + n.args, []), n)
